@@ -128,3 +128,155 @@ Proof.
   assert (Hns : ns' = ns) by congruence. rewrite Hns in Hr. rewrite Hr, (new_server_options _ _ _ _ mac H).
   apply (config_option_premises c own own_mac mac ns (new_server_sound _ _ _ _ H) Hb Hl).
 Qed.
+
+(* ---------- from the configuration language to the server model: every accepted configuration meets the configuration
+   premises of the wire-level theorems ---------- *)
+From PSA Require Import proofs.ConstFacts proofs.ClientsProofs proofs.TableProofs proofs.WireInv proofs.WireLease proofs.WireSnap.
+
+(* the configuration of the handler model (model/Server.v) that an accepted configuration gives rise to *)
+Definition scfg_of (c : config) (self : N) (own_mac : bytes) (ns : Z) (db : ipdb) : scfg :=
+  {| c_self_ip := self; c_self_mac := own_mac; c_lease := ns; c_db := db;
+     c_statics := statics (g_clients c);
+     c_opts := map (fun m => (m, expected_options c m)) (client_macs (g_clients c));
+     c_default_opts := [(gf_dhcpmsg_OptIPAddressLeaseDuration, put32 (Z.to_N (lease_seconds c))); (gf_dhcpmsg_OptSubnetMask, put32 (netmask c))]
+                       ++ opt_addr gf_dhcpmsg_OptRouter (expected_router c None) ++ opt_addrs gf_dhcpmsg_OptDNS (expected_dns c None)
+                       ++ opt_addrs gf_dhcpmsg_OptNTP (expected_ntp c None) ++ opt_bytes gf_dhcpmsg_OptDomainName (g_domain c)
+                       ++ opt_bytes gf_dhcpmsg_OptHostname (expected_hostname None) |}.
+
+Lemma find_client_none mac l : ~ In mac (client_macs l) -> find_client mac l = None.
+Proof.
+  induction l as [|k l IH]; intros Hn; [reflexivity|]. unfold find_client. cbn [find]. fold (find_client mac l).
+  unfold client_macs in Hn. cbn [flat_map] in Hn. fold (client_macs l) in Hn.
+  destruct (k_key k) as [|m] eqn:Ek.
+  - apply IH. exact Hn.
+  - cbn [app] in Hn. destruct (bytes_eqb m mac) eqn:Eb.
+    + exfalso. apply Hn. left. apply bytes_eqb_eq. exact Eb.
+    + apply IH. intros H. apply Hn. right. exact H.
+Qed.
+
+Lemma assoc_map_key {A} (f : bytes -> A) mac l : assoc mac (map (fun m => (m, f m)) l) = if existsb (bytes_eqb mac) l then Some (f mac) else None.
+Proof.
+  induction l as [|m l IH]; [reflexivity|]. cbn [map assoc existsb]. destruct (bytes_eqb mac m) eqn:E.
+  - apply bytes_eqb_eq in E. subst m. reflexivity.
+  - exact IH.
+Qed.
+
+Lemma opts_for_scfg_of c self own_mac ns db mac : opts_for (scfg_of c self own_mac ns db) mac = expected_options c mac.
+Proof.
+  unfold opts_for, scfg_of. cbn [c_opts c_default_opts]. rewrite assoc_map_key.
+  destruct (existsb (bytes_eqb mac) (client_macs (g_clients c))) eqn:E; [reflexivity|].
+  unfold expected_options. rewrite find_client_none; [reflexivity|].
+  intros Hin. apply not_true_iff_false in E. apply E. apply existsb_exists. exists mac. split; [exact Hin|apply beqb_refl].
+Qed.
+
+Lemma nodup_statics_macs l : NoDup (client_macs l) -> NoDup (map fst (statics l)) /\ (forall m, In m (map fst (statics l)) -> In m (client_macs l)).
+Proof.
+  induction l as [|k l IH]; intros Hn; [split; [constructor|intros m []]|].
+  unfold client_macs in Hn. cbn [flat_map] in Hn. fold (client_macs l) in Hn.
+  unfold statics, client_macs. cbn [flat_map]. fold (statics l). fold (client_macs l). unfold static_of.
+  destruct (k_key k) as [|m] eqn:Ek.
+  - cbn [app]. destruct (IH Hn) as [A B]. split; [exact A|exact B].
+  - cbn [app] in Hn. apply NoDup_cons_iff in Hn as [Hn1 Hn2]. destruct (IH Hn2) as [A B].
+    destruct (k_ip k); cbn [app map fst]; try (split; [exact A|intros m0 H; right; apply B; exact H]).
+    split.
+    + constructor; [intros H; apply Hn1; apply B; exact H|exact A].
+    + intros m0 [->|H]; [left; reflexivity|right; apply B; exact H].
+Qed.
+
+Theorem accepted_config_premises c own own_mac s : new_server c own own_mac = Ok s -> config_bytes_ok c ->
+  (forall ip mask, g_network c = Net4 ip mask -> ip < 4294967296 /\ mask < 4294967296) -> s_self s < 4294967296 ->
+  let sc := scfg_of c (s_self s) own_mac (reserved_ns s) (s_db s) in
+  cfg_wire_ok sc /\ cfg_srv_ok sc /\ cfg_lease_ok sc /\ cfg_c07_ok sc /\ durations_ok sc /\ initial_table sc = s_table s.
+Proof.
+  intros H Hb Hnet Hself sc.
+  pose proof (new_server_sound _ _ _ _ H) as Hv.
+  destruct (new_server_state _ _ _ _ H) as (self & Hown & Hs & Hrng & Htab & Hres).
+  destruct (v_lease_parsed _ _ _ Hv) as (ns & Hl). rewrite Hl in Hres.
+  destruct (v_network _ _ _ Hv) as (ip & mask & En). destruct (Hnet ip mask En) as [Hip Hmask].
+  (* ranges *)
+  unfold expected_ranges, net_range in Hrng. rewrite En in Hrng. destruct (from_to ip mask) as [f t] eqn:Eft.
+  assert (Hft : f < 4294967296 /\ t < 4294967296).
+  { unfold from_to in Eft. assert (Hland : N.land ip mask < 4294967296).
+    { destruct (N.eq_dec (N.land ip mask) 0) as [E0|E0]; [rewrite E0; lia|].
+      change 4294967296 with (2 ^ 32). apply N.log2_lt_pow2; [lia|]. eapply N.le_lt_trans; [apply N.log2_land|]. apply N.min_lt_iff. left.
+      destruct (N.eq_dec ip 0) as [Ei|Ei]; [subst; cbn; lia|]. apply N.log2_lt_pow2; [lia|]. exact Hip. }
+    destruct (N.land ip mask =? u32 (N.land ip mask + (4294967295 - mask))); injection Eft as <- <-; unfold u32; split; try lia;
+      apply N.mod_lt; lia. }
+  assert (Hnf : net_from (s_db s) = f /\ net_to (s_db s) = t).
+  { unfold ranges_of in Hrng. destruct (g_static_only c); [injection Hrng as -> -> _ _; auto|].
+    destruct (g_range c) as [| | |[a|] [b|]]; injection Hrng as -> -> _ _; auto. }
+  destruct Hnf as [Hnf Hnt].
+  assert (Hinnet : forall n, in_network c n = true -> net_from (s_db s) <= n <= net_to (s_db s)).
+  { intros n Hn. unfold in_network, net_range in Hn. rewrite En, Eft in Hn. unfold in_range in Hn. cbn [fst snd] in Hn. lia. }
+  (* option lists *)
+  assert (Hopt : forall mac, opts_ok (opts_for sc mac) = true /\ o_lease (decode_options (opts_for sc mac)) = Z.to_N (reserved_ns s / 1000000000) /\
+                 (Z.of_N (o_lease (decode_options (opts_for sc mac))) * 1000000000 <= reserved_ns s)%Z /\ o_mask (decode_options (opts_for sc mac)) <> None).
+  { intros mac. unfold sc. rewrite opts_for_scfg_of, Hres. apply (config_option_premises c own own_mac mac ns Hv Hb Hl). }
+  assert (Hcs : cfg_srv_ok sc).
+  { destruct (nodup_statics_macs _ (v_distinct_macs _ _ _ Hv)) as [Hndm Hsub].
+    constructor; unfold perm_pairs, sc, scfg_of; cbn [c_statics c_self_mac c_self_ip c_db].
+    - rewrite map_app. cbn [map fst]. apply NoDup_snoc_iff. split; [exact Hndm|]. exact (v_own_mac_free _ _ _ Hv).
+    - rewrite map_app. cbn [map snd]. rewrite Hs. apply (v_distinct_ips _ _ _ Hv self Hown).
+    - intros mac n Hin. apply in_app_or in Hin as [Hin|[Heq|[]]].
+      + apply Hinnet. eapply v_statics_in_net; eauto.
+      + injection Heq as _ <-. destruct (v_own _ _ _ Hv) as (self' & Hs' & Hin'). rewrite Hs. assert (self' = self) by congruence. subst self'. apply Hinnet. exact Hin'.
+    - intros Hdd. unfold ranges_of in Hrng. unfold dynamic_disabled in Hdd. pose proof (v_range _ _ _ Hv) as Hro. unfold range_ok in Hro.
+      destruct (g_static_only c).
+      + injection Hrng as _ _ E1 E2. rewrite E1, E2 in Hdd. discriminate.
+      + destruct (g_range c) as [| | |[a|] [b|]]; try discriminate; injection Hrng as _ _ E1 E2; rewrite E1, E2, Hnf, Hnt.
+        * lia.
+        * rewrite !andb_true_iff in Hro. destruct Hro as ((Ha & Hb') & _). pose proof (Hinnet a Ha). pose proof (Hinnet b Hb'). rewrite Hnf, Hnt in *. lia. }
+  split; [|split; [exact Hcs|split; [|split; [|split]]]].
+  - (* cfg_wire_ok *)
+    unfold cfg_wire_ok, sc, scfg_of. cbn [c_self_ip c_db c_default_opts c_opts]. split; [exact Hself|]. split; [rewrite Hnt; tauto|].
+    split.
+    + (* the default list is what a configuration without client entries prescribes for any hardware address *)
+      pose (c0 := with_clients c []).
+      assert (Hv0 : valid_config c0 own own_mac).
+      { constructor.
+        - exact (v_network _ _ _ Hv).
+        - exact (v_lease_parsed _ _ _ Hv).
+        - exact (v_lease_min _ _ _ Hv).
+        - exact (v_lease_fits _ _ _ Hv).
+        - exact (v_global_addrs _ _ _ Hv).
+        - exact (v_global_fits _ _ _ Hv).
+        - exact (v_range _ _ _ Hv).
+        - exact (v_own _ _ _ Hv).
+        - constructor.
+        - constructor.
+        - constructor.
+        - intros m n [].
+        - constructor.
+        - intros self0 Hs0. cbn. constructor; [intros []|constructor].
+        - intros []. }
+      assert (Hb0 : config_bytes_ok c0) by (destruct Hb; split; [assumption|constructor]).
+      destruct (config_option_premises c0 own own_mac [] ns Hv0 Hb0 Hl) as [Ho0 _]. exact Ho0.
+    + apply Forall_forall. intros [m os] Hin. cbn [snd]. apply in_map_iff in Hin as (m' & Heq & _). injection Heq as <- <-.
+      destruct (Hopt m') as [Ho _]. unfold sc in Ho. rewrite opts_for_scfg_of in Ho. exact Ho.
+  - intros mac. destruct (Hopt mac) as (_ & _ & A & _). exact A.
+  - intros mac. destruct (Hopt mac) as (_ & A & _ & B). split; assumption.
+  - unfold durations_ok, sc, scfg_of. cbn [c_lease]. rewrite Hres. pose proof (v_lease_min _ _ _ Hv ns Hl) as Hmin. unfold spec_min_lease_ns in Hmin.
+    unfold hold_ns, req_hold_ns, gf_offer_hold_ns, gf_request_hold_ns. lia.
+  - (* the table the handler model starts from is the table New builds *)
+    rewrite Htab. unfold expected_bindings. rewrite <- Hs. rewrite (initial_table_eq sc Hcs). reflexivity.
+Qed.
+
+(* From the configuration file's content to the wire: for every configuration the model of server.New accepts, every sequential
+   history (with a listing after each round) that the acceptor accepts for the handler configuration it gives rise to satisfies
+   every server monitor. *)
+Theorem accepted_config_to_the_wire c own own_mac s h : new_server c own own_mac = Ok s -> config_bytes_ok c ->
+  (forall ip mask, g_network c = Net4 ip mask -> ip < 4294967296 /\ mask < 4294967296) -> s_self s < 4294967296 ->
+  let sc := scfg_of c (s_self s) own_mac (reserved_ns s) (s_db s) in
+  Forall wf_round h -> snap_times 0%Z h -> accepted sc h ->
+  Monitors.mon_C01 sc h = true /\ Monitors.mon_C02 sc h = true /\ Monitors.mon_C03 sc h = true /\ Monitors.mon_C04 sc h = true /\ Monitors.mon_C05 sc h = true /\
+  Monitors.mon_C06 sc h = true /\ Monitors.mon_C07 sc h = true /\ Monitors.mon_C08 sc h = true /\ Monitors.mon_C10 sc h = true.
+Proof.
+  intros H Hb Hnet Hself sc Hw Hs Ha.
+  destruct (accepted_config_premises c own own_mac s H Hb Hnet Hself) as (A & B & C & D & E & _). fold sc in A, B, C, D, E.
+  pose proof (snap_times_seq h _ Hs) as Hseq.
+  split; [apply accepted_history_c01; assumption|]. split; [apply accepted_history_c02; assumption|].
+  split; [apply accepted_history_c03; assumption|]. split; [apply accepted_history_c04; assumption|].
+  split; [apply accepted_history_c05; assumption|]. split; [apply accepted_history_c06; assumption|].
+  split; [apply accepted_history_c07; assumption|]. split; [apply accepted_history_c08; assumption|].
+  apply accepted_history_c10; assumption.
+Qed.
